@@ -227,6 +227,19 @@ def run(chk, repo):
                    "after stop(), from the top of an iteration (after its write) every path breaks: %s" % sorted(top),
                    why="a running player keeps writing chunks after stop(): outcomes %s (fall = next chunk is written "
                        "without ever testing the flag, blocked = waits forever)" % sorted(top), node=lp)
+        # pause()/play() may still be called after stop(): the flag must be honoured whatever state `go` is in
+        saved = go_set
+        outcomes = {}
+        for state in (True, False):
+            go_set = state
+            outcomes[state] = walk(list(lp.body[1:]), False)
+        go_set = saved
+        chk.decide(all(o == {"break"} for o in outcomes.values()), "C17.stop", W("AudioThread.run"),
+                   "halting is honoured at the top of an iteration whatever the go event is: set -> %s, cleared -> %s"
+                   % (sorted(outcomes[True]), sorted(outcomes[False])),
+                   why="after stop() a later pause()/play() changes `go` again: with the flag raised the loop must still "
+                       "break; here a stopped-then-paused player blocks in go.wait() (close() with wait=True never "
+                       "returns) or keeps playing", node=lp)
         for w in waits:
             # statements after the wait within its block, then the rest of the enclosing blocks
             tail = _after(w, lp)
